@@ -2,4 +2,6 @@ SPECIFICATION Spec
 CONSTANTS
   MaxSteps = 5
   DEV_StaticRegistersCenter = FALSE
+  DEV_ReassignKeepsOld = FALSE
+  DEV_RemoveNeedsLanelets = FALSE
 ACTION_CONSTRAINT Emit
